@@ -204,6 +204,16 @@ def panelForce (surfs : List (Surf K)) (f : Flow K) (gamma : Nat → K) (m : Nat
   | some (s, i, j) =>
     V3.smul (f.rho * horseshoe surfs gamma m) (V3.cross (forcePtVelocity surfs f gamma m) (boundVec s i j))
 
+/-- `panel_forces[m]` with the onset velocity of every panel given explicitly (`onsetAt m`, global panel index): the
+form used by the compressible group, whose onset velocities are transformed separately from the geometry -/
+def panelForceWith (surfs : List (Surf K)) (f : Flow K) (onsetAt : Nat → V3 K) (gamma : Nat → K) (m : Nat) : V3 K :=
+  match locate surfs m with
+  | none => 0
+  | some (s, i, j) =>
+    let vel := onsetAt m
+      + V3.sumTo (totalPanels surfs) (fun n => V3.smul (gamma n) (influence surfs f (forcePt s i j) n))
+    V3.smul (f.rho * horseshoe surfs gamma m) (V3.cross vel (boundVec s i j))
+
 end
 end VLM
 end OAS
